@@ -89,6 +89,13 @@ def gen(rng, tier):
       abbrevs.add('.'.join(parts[i:]))
   ops = []
   nfile = [0]
+  if rng.random() < 0.6:
+    # uses first, definitions later: the order the suite never tries
+    ops.append({'op': 'parse', 'skip': False, 'stmts': [
+        {'k': 'bind', 'scope': rng.choice(['', 's1']),
+         'sel': 'cons%d' % rng.randint(0, 1), 'param': rng.choice(['x', 'y']),
+         'val': _use_value(rng, MACROS[:3])}
+        for _ in range(rng.randint(1, 2))]})
   for _ in range(rng.randint(3, 16 if tier == 'thorough' else 12)):
     r = rng.random()
     if r < 0.5:
